@@ -39,6 +39,10 @@ class PrintHooks(Hooks):
         d = fn.dem
         return not ('format_numeric_string' in d or d.startswith('ST::string_stream::append') or 'ST::buffer<char>::allocate' in d)
 
+    def on_store(self, I, st, inst, p, v, nbytes):
+        if nbytes == 1:
+            st.ev('byte-store', inst)
+
     def call(self, I, st, inst, name, args):
         if name is None:
             return None
@@ -57,6 +61,48 @@ class PrintHooks(Hooks):
         return None
 
 
+def short_path(I, s2, val, radix, signed=True):
+    """A returning path that never calls the digit generator: the characters it can have written (single-byte stores, bounded
+    copies, single appends) against the number of characters the value needs in the radix.  A finding text with a witness, or None
+    (nothing shown: the path may be a correct special case, or writes through something not counted)."""
+    if [e for e in s2.events if e[0] in ('ntype',)]:
+        return None
+    room = 0
+    for e in s2.events:
+        if e[0] in ('byte-store', 'emit-char'):
+            room += 1
+        elif e[0] == 'copy':
+            hi = s2.range(e[4])[1] if isinstance(e[4], Lin) else None
+            if hi is None or hi > 64:
+                return None
+            room += hi
+
+    def needs(v, r):
+        if r < 2:
+            return 0
+        n_, a = (1 if v < 0 else 0), abs(v)
+        while True:
+            n_ += 1
+            a //= r
+            if a == 0:
+                return n_
+    vl = I.as_s(s2, val) if signed else I.as_u(s2, val)
+    env = s2.find_model([vl, radix.lin], lambda v: needs(v[0], v[1]) > room)
+    if env is None:
+        return None
+    v0, r0 = eval_in(env, vl), eval_in(env, radix.lin)
+    return ('a path renders the value without the digit generator and writes at most %d character(s), but value %d in radix %d needs %d; '
+            'witness %s' % (room, v0, r0, needs(v0, r0), own.fmt_env(env)))
+
+
+def eval_in(env, lin):
+    from ..terms import eval_lin
+    try:
+        return eval_lin(lin, env)
+    except KeyError:
+        return 0
+
+
 def printers(run, m, F, E):
     n = 0
     nt = m.enums.get('_ST_PRIVATE::numeric_type', {})
@@ -72,11 +118,15 @@ def printers(run, m, F, E):
         st = State()
         args = []
         val = None
+        radix = None
         for k, p in enumerate(f.params):
             ty = p['ty']
             if k == vk:
                 val = I.fresh_int(st, bits, 'value', signed=True)
                 args.append(val)
+            elif ty == 'i32' and k < len(f.argnames) and f.argnames[k] == 'radix':
+                radix = I.fresh_int(st, 32, 'radix', lo=2, hi=36)
+                args.append(radix)
             elif ty.endswith('*'):
                 args.append(I.fresh_ptr(st, 'p%d' % k))
             elif ty == 'i1':
@@ -102,6 +152,12 @@ def printers(run, m, F, E):
                 und.append('path ends in %s' % o.kind)
                 continue
             mg = [e for e in s2.events if e[0] == 'magnitude']
+            if not mg and radix is not None:
+                # a rendering made without the digit generator (a fast path): it cannot hold more characters than the path writes
+                r = short_path(I, s2, val, radix)
+                if r is not None:
+                    problems.append(r)
+                    continue
             if len(mg) != 1:
                 und.append('%d magnitude calls' % len(mg))
                 continue
